@@ -96,7 +96,47 @@ func pairsUnhex(l [][2]string) []pair {
 // Coq printers
 // ---------------------------------------------------------------------------------------
 
-func kvTerm(p pair) string { return "(" + vh.HxS(p.K) + ", " + vh.HxS(p.V) + ")" }
+// byte strings that occur several times in one case (the URI inside REQUEST_URI_RAW, REQUEST_LINE,
+// the body inside REQUEST_BODY ...) are printed once and shared through a Gallina let: the term
+// denotes exactly the same value, the case file is several times smaller.
+type interner struct {
+	names map[string]string
+	defs  []string
+}
+
+var cur = &interner{names: map[string]string{}}
+
+func H(s string) string {
+	if len(s) < 5 {
+		return vh.HxS(s)
+	}
+	if n, ok := cur.names[s]; ok {
+		return n
+	}
+	n := fmt.Sprintf("s%d", len(cur.defs))
+	cur.names[s] = n
+	cur.defs = append(cur.defs, "let "+n+" := "+vh.HxS(s)+" in ")
+	return n
+}
+func HList(l []string) string {
+	it := make([]string, len(l))
+	for i, s := range l {
+		it[i] = H(s)
+	}
+	return vh.List(it)
+}
+
+// wrap closes the current case: let-bindings in front of the constructor application
+func wrap(body string) string {
+	t := body
+	if len(cur.defs) > 0 {
+		t = "(" + strings.Join(cur.defs, "") + body + ")"
+	}
+	cur = &interner{names: map[string]string{}}
+	return t
+}
+
+func kvTerm(p pair) string { return "(" + H(p.K) + ", " + H(p.V) + ")" }
 func kvList(l []pair) string {
 	it := make([]string, len(l))
 	for i, p := range l {
@@ -112,18 +152,18 @@ func gmapTerm(m map[string][]string) string {
 	sort.Strings(keys)
 	it := make([]string, len(keys))
 	for i, k := range keys {
-		it[i] = "(" + vh.HxS(k) + ", " + vh.HxList(m[k]) + ")"
+		it[i] = "(" + H(k) + ", " + HList(m[k]) + ")"
 	}
 	return vh.List(it)
 }
 func (n *jnode) term() string {
 	switch n.T {
 	case "s":
-		return "(JStr " + vh.HxS(unhx(n.S)) + ")"
+		return "(JStr " + H(unhx(n.S)) + ")"
 	case "null":
 		return "JNull"
 	case "raw":
-		return "(JRaw " + vh.HxS(unhx(n.S)) + ")"
+		return "(JRaw " + H(unhx(n.S)) + ")"
 	case "arr":
 		it := make([]string, len(n.Items))
 		for i := range n.Items {
@@ -133,7 +173,7 @@ func (n *jnode) term() string {
 	default:
 		it := make([]string, len(n.Items))
 		for i := range n.Items {
-			it[i] = "(" + vh.HxS(unhx(n.Keys[i])) + ", " + n.Items[i].term() + ")"
+			it[i] = "(" + H(unhx(n.Keys[i])) + ", " + n.Items[i].term() + ")"
 		}
 		return "(JObj " + vh.List(it) + ")"
 	}
@@ -467,7 +507,7 @@ func (rn *runner) fail(key, what string, c any) {
 	rn.res.OracleFailures = append(rn.res.OracleFailures, vh.OracleFailure{Key: key, What: what, Case: c})
 }
 func (rn *runner) emit(term string, c *caseJSON, nontrivial bool) {
-	rn.terms = append(rn.terms, term)
+	rn.terms = append(rn.terms, wrap(term))
 	rn.cases = append(rn.cases, c)
 	rn.res.Evaluations++
 	rn.res.InputDistribution["kind_"+c.Kind]++
@@ -513,18 +553,18 @@ func (rn *runner) runParseQuery(c *caseJSON) {
 		c.Sep = '&'
 	}
 	m := urlutil.ParseQuery(q, sep)
-	rn.emit(fmt.Sprintf("CP %s %s %s", vh.HxS(q), vh.N(int64(sep)), gmapTerm(m)), c, strings.ContainsAny(q, "%+=&;"))
+	rn.emit(fmt.Sprintf("CP %s %s %s", H(q), vh.N(int64(sep)), gmapTerm(m)), c, strings.ContainsAny(q, "%+=&;"))
 }
 
 func (rn *runner) runParseCookies(c *caseJSON) {
 	raw := unhx(c.QHex)
 	m := cookies.ParseCookies(raw)
-	rn.emit(fmt.Sprintf("CK %s %s", vh.HxS(raw), gmapTerm(m)), c, len(m) > 0)
+	rn.emit(fmt.Sprintf("CK %s %s", H(raw), gmapTerm(m)), c, len(m) > 0)
 }
 
 func (rn *runner) runEnc(c *caseJSON) {
 	l := pairsUnhex(c.Pairs)
-	rn.emit(fmt.Sprintf("CE %s %s %s", kvList(l), vh.HxS(encQueryCanon(l)), vh.HxS(encCookieCanon(l))), c, len(l) > 0)
+	rn.emit(fmt.Sprintf("CE %s %s %s", kvList(l), H(encQueryCanon(l)), H(encCookieCanon(l))), c, len(l) > 0)
 }
 
 func (rn *runner) runURI(c *caseJSON) error {
@@ -557,7 +597,7 @@ func (rn *runner) runURI(c *caseJSON) error {
 	}
 	parse := "None"
 	if pu, err := url.ParseRequestURI(u); err == nil {
-		parse = fmt.Sprintf("(Some (%s, %s, %s))", vh.HxS(pu.Path), vh.HxS(pu.RawQuery), vh.HxS(pu.String()))
+		parse = fmt.Sprintf("(Some (%s, %s, %s))", H(pu.Path), H(pu.RawQuery), H(pu.String()))
 	}
 	limit := c.Limit
 	if limit == 0 {
@@ -568,8 +608,8 @@ func (rn *runner) runURI(c *caseJSON) error {
 	if len(uri)%4 == 0 {
 		views = fmt.Sprintf("(Some (%s, %s, %s))", kvList(getNames), kvList(args), kvList(argsNames))
 	}
-	rn.emit(fmt.Sprintf("CQ %s %s %s %s %s %s %s %s", vh.HxS(uri), parse, vh.Nat(limit), kvList(get), views,
-		vh.Nat(size), vh.HxList(singles), vh.Bool(uerr)), c, len(get) > 0 || uerr)
+	rn.emit(fmt.Sprintf("CQ %s %s %s %s %s %s %s %s", H(uri), parse, vh.Nat(limit), kvList(get), views,
+		vh.Nat(size), HList(singles), vh.Bool(uerr)), c, len(get) > 0 || uerr)
 
 	// rule view == collection view
 	rn.checkRules(c, byRule, 101, "ARGS_GET", get)
@@ -627,7 +667,7 @@ func (rn *runner) runHeaders(c *caseJSON) error {
 	if len(hs)%4 == 0 {
 		names = fmt.Sprintf("(Some (%s, %s))", kvList(hnames), kvList(cnames))
 	}
-	rn.emit(fmt.Sprintf("CH %s %s %s %s %s", kvList(hs), kvList(headers), kvList(cks), names, vh.HxS(rbp)), c, len(headers) > 0)
+	rn.emit(fmt.Sprintf("CH %s %s %s %s %s", kvList(hs), kvList(headers), kvList(cks), names, H(rbp)), c, len(headers) > 0)
 	rn.checkRules(c, byRule, 105, "REQUEST_COOKIES", cks)
 	rn.checkRules(c, byRule, 106, "REQUEST_HEADERS", headers)
 	rn.checkRules(c, byRule, 107, "REQUEST_COOKIES_NAMES", cnames)
@@ -735,7 +775,7 @@ func (rn *runner) runBody(c *caseJSON) error {
 	}
 	ctl := "None"
 	if c.Ctl != "" {
-		ctl = "(Some " + vh.HxS(c.Ctl) + ")"
+		ctl = "(Some " + H(c.Ctl) + ")"
 	}
 	c.Obs = map[string]any{"args_post": pairsHex(sortPairs(post)), "request_body_hex": hx(rb), "rbp": rbp, "reqbody_error": rerr}
 	rn.res.InputDistribution["body_proc_"+proc]++
@@ -747,8 +787,8 @@ func (rn *runner) runBody(c *caseJSON) error {
 		pn = "(Some " + kvList(postNames) + ")"
 	}
 	rn.emit(fmt.Sprintf("CB %s %s %s %s %s %s %s %s %s %s %s %s %s %s %s %s", vh.Bool(c.Access), vh.Bool(c.Force), vh.Nat(depth), kvList(hs), ctl,
-		vh.HxS(body), tree, vh.Bool(c.Canon && c.Tree != nil), vh.Bool(extErr), vh.Bool(cmpArgs), kvList(post), pn,
-		vh.HxS(rb), vh.HxS(rbl), vh.HxS(rbp), vh.Bool(rerr)), c, len(post) > 0 || rerr || rb != "")
+		H(body), tree, vh.Bool(c.Canon && c.Tree != nil), vh.Bool(extErr), vh.Bool(cmpArgs), kvList(post), pn,
+		H(rb), H(rbl), H(rbp), vh.Bool(rerr)), c, len(post) > 0 || rerr || rb != "")
 
 	rn.checkRules(c, byRule, 102, "ARGS_POST", post)
 	rn.checkRules(c, byRule, 110, "ARGS_POST_NAMES", postNames)
